@@ -158,6 +158,10 @@ def names_family(tier):
             if n and n not in names:
                 names.append(n)
     names += ["<state>" + "a" * 70, "x" * 70, "<p>" + "B" * 64, "<t>", "<dt>", "<state>y_0", "<state>y__0", "y_0", "Y_0"]
+    # non-ASCII names: letters and digits of other scripts (alphanumeric for str.isalnum / \w, not for a Fortran compiler),
+    # and pairs that Python identifies after NFKC normalisation (x / fullwidth x, fi / the fi ligature)
+    uni = ["\u03c3", "x\u00b2", "x", "\uff58", "fi", "\ufb01", "\u00e9", "y\u0663"]
+    names += uni + ["<state>" + u for u in uni] + ["<p>" + u for u in uni[:4]] + ["<func>" + u for u in uni[:2]]
     return names
 
 
@@ -224,7 +228,11 @@ def judge_set(target, names, reserved):
     for (n1, i1), (n2, i2) in itertools.combinations(items, 2):
         if n1 == n2:
             continue
-        a, b = (i1, i2) if target == "python" else (i1.lower(), i2.lower())
+        if target == "python":
+            import unicodedata      # Python compares identifiers after NFKC normalisation
+            a, b = unicodedata.normalize("NFKC", i1), unicodedata.normalize("NFKC", i2)
+        else:
+            a, b = i1.lower(), i2.lower()
         if a == b:
             return "%r and %r both map to %r%s" % (n1, n2, i1 if target == "python" else "%s / %s" % (i1, i2),
                                                   "" if target == "python" else " (equal for a Fortran compiler)")
@@ -336,7 +344,7 @@ def main(tier, seed):
         sets.append((rng.choice(["python", "fortran"]), s))
     for part in pmap("vf.checks.c13", "work_sets", [{"sets": c} for c in chunks(sets, common.NPROC * 2)]):
         run.absorb(part)
-    run.bounds = {"names": len(names), "name_sets": len(sets), "set_size": "2..4", "body_alphabet": "y Y _ ^ * 0 <",
+    run.bounds = {"names": len(names), "name_sets": len(sets), "set_size": "2..4", "body_alphabet": "y Y _ ^ * 0 <", "non_ascii_names": "sigma, x-superscript-2, fullwidth x, fi ligature, e-acute, arabic digit (bare and tagged)",
                   "tags": ["", "<state>", "<p>", "<func>", "<cond>", "lploc_", "<ret_state>"], "long_names": "64..77 characters"}
     run.selftests = selftests()
     if not all(run.selftests.values()):
